@@ -160,17 +160,20 @@ def judgeE2E (ct ot : List String) : Option Verdict := do
   let hsC := (kv ot "hsC").getD "?"
   let hsS := (kv ot "hsS").getD "?"
   let model := if hs == "ok" then
-      s!"hs=ok hsC={hsC} hsS={hsS} w={showWay cin c szs} v={showWay sin c rszs} W={showWay cin c stl} V={showWay sin c stl}"
+      s!"hs=ok hsC={hsC} hsS={hsS} mc={mc} ms={ms} w={showWay cin c szs} v={showWay sin c rszs} W={showWay cin c stl} V={showWay sin c stl}"
     else s!"hs=ok hsC={hsC} hsS={hsS}"
+  -- the spec judges against the maximum payload each real connection REPORTED (not the model's)
+  let mcS := (kvNat ot "mc").getD mc
+  let msS := (kvNat ot "ms").getD ms
   let spec : Option (String × String) :=
     if hs != "ok" then some ("handshake-failed", s!"the handshake did not complete at PMTU {cp}/{sp}") else
     match parseSizes hsC, parseSizes hsS with
     | some dc, some ds =>
       -- the data phase first: the flight verdict (known finding K3) must not mask it
-      (judgeWay su cp mc "client->server" false (entries ((kv ot "w").getD "-")) szs).orElse fun _ =>
-      (judgeWay su sp ms "server->client" false (entries ((kv ot "v").getD "-")) rszs).orElse fun _ =>
-      (judgeWay su cp mc "client Write" true (entries ((kv ot "W").getD "-")) stl).orElse fun _ =>
-      (judgeWay su sp ms "server Write" true (entries ((kv ot "V").getD "-")) stl).orElse fun _ =>
+      (judgeWay su cp mcS "client->server" false (entries ((kv ot "w").getD "-")) szs).orElse fun _ =>
+      (judgeWay su sp msS "server->client" false (entries ((kv ot "v").getD "-")) rszs).orElse fun _ =>
+      (judgeWay su cp mcS "client Write" true (entries ((kv ot "W").getD "-")) stl).orElse fun _ =>
+      (judgeWay su sp msS "server Write" true (entries ((kv ot "V").getD "-")) stl).orElse fun _ =>
       (DtlcpTxSpec.judgeFlight cp dc).orElse fun _ =>
       (DtlcpTxSpec.judgeFlight sp ds)
     | _, _ => some ("shape", "unparseable observation")
